@@ -185,3 +185,21 @@ PROPS["C06"] = dict(
     engines=[pbt("c06_foreign", libs=["rapidcheck", "snappy", "lz4"], quick=dict(cases=900, size=60, procs=8), thorough=dict(cases=12000, size=100, procs=16))],
     min_evaluations=dict(quick=5000, thorough=150000),
 )
+
+PROPS["C17"] = dict(
+    title="Schema trees map to the right leaf columns and def/rep levels",
+    level="exploration",
+    design_ref="DESIGN.md section 8, C17",
+    level_text=("Bounded-exhaustive enumeration of every ordered schema forest with up to 4 nodes (quick; every 5th with 5 nodes) / up to 6 nodes (thorough, "
+                "about 110 000 schemas) under every labeling by REQUIRED/OPTIONAL/REPEATED, plus random deep (depth 25), wide (400 leaves) and 1000+ leaf "
+                "trees, each written as a file by the reference writer with valid level sequences; oracle = textbook level counts, element accessors, "
+                "find_column and the levels returned when the chunks are read. Builder: generated add_column sequences of 0..300 calls past the "
+                "capacities 64 and 128. Exhaustive only within the node bound; leaf types and contents are sampled."),
+    level_note="trusts ref/parquet_writer.hpp; dotted-path lookup is exercised but not asserted (the property does not state it)",
+    technique="bounded-exhaustive enumeration of labelled schema trees + property-based testing (rapidcheck), reference writer, textbook level oracle",
+    rule=("tree case = (schema tree, per-leaf level entries and values, I/O mode); non-trivial: depth >= 2 with at least one OPTIONAL or REPEATED interior node. "
+          "builder case = list of (type, repetition, type length, logical type) columns; non-trivial: >= 64 columns (growth past the initial capacity)."),
+    assumptions=["leaf names used for find_column are unique in the schema"],
+    engines=[pbt("c17_schema", libs=["rapidcheck", "snappy", "lz4"], quick=dict(cases=1200, size=60, enum=1, procs=4), thorough=dict(cases=8000, size=100, enum=2, procs=16, timeout=7200))],
+    min_evaluations=dict(quick=5000, thorough=150000),
+)
